@@ -9,6 +9,9 @@ CLAIMED = {
                 'char::is_whitespace table (all validated against the native build on every run); bounds: code-point mode <= 4 '
                 'chars, grapheme mode <= 3 code points (thorough 5/4), all UTF-8 width combinations'),
 }
+CLAIMED['C10'] = dict(design='5 (C10), 2', note='trusted: MIRSE MIR semantics + std models, grapheme model over Sigma_g, is_whitespace table '
+    '(validated natively every run); clean pairs are generated as (symbolic non-whitespace content) x (every single-space placement); '
+    'bounds in evidence.coverage.bounds; known finding KF-C10-1 region excluded only while its witness reproduces natively')
 NOT_YET = 'check not built yet in this session (work in progress, see DESIGN.md section 6 for the order)'
 NA = {}
 
